@@ -178,12 +178,13 @@ for tag in ('f32', 'f64'):
 
     # ------------------------------------------------------------------ gtx fastMix: normalised linear interpolation
     BL = 'vadd(vscale(%s, a), vscale(%s, 1 - a))' % (Y, X)     # y*a + x*(1-a): the affine blend, summands in the order of the code's term
-    NZ = 'norm2(%s) > 0' % BL
+    LEN = 'sqrt(norm2(%s))' % BL                                # |blend|; it vanishes only for y == -x, a == 1/2
+    NZ = '%s > 0' % LEN
     fn = 'glm_quat_fastMix_' + tag
     shim3(fn, 'glm::fastMix(%s, %s, a)' % (qx, qy))
     R(fn, 'glm::fastMix(qua, qua, a)  ' + XQ, requires=UNIT,
       ensures=[('unit_length', 'Implies(%s, norm2(out) == 1)' % NZ),
-               ('is_affine_blend_over_its_length', 'Implies(%s, And(eqv(vscale(out, sqrt(norm2(%s))), %s)))' % (NZ, BL, BL)),
+               ('is_affine_blend_over_its_length', 'Implies(%s, And(eqv(vscale(out, %s), %s)))' % (NZ, LEN, BL)),
                ('at_0_is_x', 'Implies(a == 0, And(eqv(out, %s)))' % X),
                ('at_1_is_y', 'Implies(a == 1, And(eqv(out, %s)))' % Y)])
 
